@@ -80,6 +80,20 @@ def classify(prop, spec, res):
         if c.cls == "unwind":
             out["inconclusive"].append("%s: unwinding assertion failed in %s (bound too small)" % (res["harness"], c.func))
             continue
+        forb = None
+        for (fre, dre, props, msg) in spec.get("forbidden", []):
+            if re.search(fre, c.func) and re.search(dre, c.desc):
+                forb = (props, msg)
+                break
+        if forb:
+            props, msg = forb
+            synth = kani_run.Check(c.name, c.line, "VERIF[%s]: %s" % (",".join(props), msg), "FAILURE", c.file)
+            if prop in props:
+                out["mine"].append(synth)
+                out["viol"].append(synth)
+            else:
+                out["other_prop"].append(synth)
+            continue
         hit = False
         for i, (fre, dre) in enumerate(spec.get("expected", [])):
             if re.search(fre, c.func) and re.search(dre, c.desc):
@@ -97,6 +111,12 @@ def classify(prop, spec, res):
         if i not in reached:
             fre, dre = spec["expected"][i]
             out["inconclusive"].append("%s: expected panic %s/%s is not reachable (vacuous harness)" % (res["harness"], fre, dre))
+    if spec.get("covers_dynamic"):
+        if not out["covers"]:
+            out["inconclusive"].append("%s: no reachability witness was reported" % res["harness"])
+        for cv, sat in out["covers"].items():
+            if not sat:
+                out["inconclusive"].append("%s: reachability witness not satisfied: %s" % (res["harness"], cv))
     for cv in spec.get("covers", []):
         if not out["covers"].get(cv, False):
             out["inconclusive"].append("%s: reachability witness not satisfied: %s" % (res["harness"], cv))
